@@ -46,7 +46,7 @@ func c05EnvObjects(c *mon.Ctx) []*mon.Obj {
 	objs := append([]*mon.Obj{}, W.Objs...)
 	dC, tail := directedCount(c), directedSmallTail(c)
 	for k := 0; k < dC; k++ {
-		if k < dC-tail && k%c.Pick(41, 11) != 0 {
+		if k < dC-tail && !directedSampled(c, k, c.Pick(41, 11)) {
 			continue
 		}
 		if o, _ := directedCase(c, k); o != nil {
